@@ -1416,6 +1416,9 @@ func (h *ResponseHeader) setSpecialHeader(key, value []byte) bool {
 			if contentLength, err := parseContentLength(value); err == nil {
 				h.contentLength = contentLength
 				h.contentLengthBytes = append(h.contentLengthBytes[:0], value...)
+				// A message has one framing: drop a 'chunked' installed
+				// earlier, as SetContentLength does.
+				h.h = delAllArgs(h.h, HeaderTransferEncoding)
 			}
 			return true
 		case caseInsensitiveCompare(strContentEncoding, key):
@@ -1485,6 +1488,9 @@ func (h *RequestHeader) setSpecialHeader(key, value []byte) bool {
 			if contentLength, err := parseContentLength(value); err == nil {
 				h.contentLength = contentLength
 				h.contentLengthBytes = append(h.contentLengthBytes[:0], value...)
+				// A message has one framing: drop a 'chunked' installed
+				// earlier, as SetContentLength does.
+				h.h = delAllArgs(h.h, HeaderTransferEncoding)
 			}
 			return true
 		case caseInsensitiveCompare(strConnection, key):
